@@ -1257,6 +1257,101 @@ fn huge_probes(rep: &mut Report, seed: u64, n_cfg: usize, n_ops: usize) {
     }
 }
 
+/// The counterpart of the huge-capacity probes for a 32-BIT build: capacities on both sides of
+/// 2^15 and 2^16 (where a sum or product of two positions first leaves 16 and 17 bits - half
+/// of the machine word), real storage, every rotation from a boundary set, indices from a
+/// boundary set; the position model is computed in u64.
+fn half_word_probes(rep: &mut Report, seed: u64, shard: u64, nshards: u64) {
+    rep.oblige("half_word_capacity_probes", 1);
+    let caps = [(1usize << 15) + 1, 40_000, (1 << 16) - 1, 1 << 16, (1 << 16) + 1, 70_000];
+    let mut item = 0u64;
+    for &cap in &caps {
+        item += 1;
+        if item % nshards != shard {
+            continue;
+        }
+        let case = format!("kind=halfword;cap={};seed={}", cap, seed);
+        let mut rng = Rng::derive(seed, &[67, cap as u64]);
+        let content: Vec<u32> = (0..cap as u32).map(|i| i.wrapping_mul(2_654_435_761) >> 7).collect();
+        let firsts = [0usize, 1, cap - 1, cap - 2, cap / 2, cap / 2 + 1, (1 << 16) - 1, 1 << 15, rng.usize_below(cap), rng.usize_below(cap)];
+        let mut evals = 0u64;
+        let res = vmon::catch(std::panic::AssertUnwindSafe(|| -> Result<(), (String, String)> {
+            // ---- Fixed
+            for &first in firsts.iter().filter(|f| **f < cap) {
+                let mut fx = Fixed::from_raw_parts(first, content.clone());
+                let mut idx: Vec<usize> = vec![0, 1, cap - 1, cap - 2, cap / 2, cap - first, (cap - first).wrapping_sub(1), cap - first + 1, cap, cap + 1, 2 * cap - 1, (1 << 16) - 1, 1 << 16, (1 << 16) + 1];
+                for d in 0..3usize {
+                    idx.push(((1usize << 16) - first % (1 << 16)).wrapping_sub(d) % (4 * cap));
+                    idx.push(((1usize << 16) - first % (1 << 16)) + d);
+                    idx.push(rng.usize_below(2 * cap));
+                }
+                for &i in &idx {
+                    let slot = ((first as u64 + (i as u64 % cap as u64)) % cap as u64) as usize;
+                    let want = content[slot];
+                    let got = *fx.get(i);
+                    if got != want {
+                        return Err(("halfword|fixed|get".into(), format!("Fixed N={} first={}: get({}) = {}, slot {} holds {}", cap, first, i, got, slot, want)));
+                    }
+                    if *fx.get_mut(i) != want || fx[i] != want {
+                        return Err(("halfword|fixed|get_mut_or_index".into(), format!("Fixed N={} first={}: get_mut/[] at {} disagree with slot {}", cap, first, i, slot)));
+                    }
+                }
+                // a push returns index 0 and the pushed element becomes index N-1
+                let want0 = content[first];
+                let got0 = fx.push(4_000_000_000);
+                if got0 != want0 || *fx.get(cap - 1) != 4_000_000_000 || *fx.get(0) != content[(first + 1) % cap] {
+                    return Err(("halfword|fixed|push".into(), format!("Fixed N={} first={}: push returned {} (index 0 held {}), newest {}, new oldest {}", cap, first, got0, want0, fx.get(cap - 1), fx.get(0))));
+                }
+                let (a, b) = fx.slices();
+                if a.len() + b.len() != cap || a.first().copied() != Some(content[(first + 1) % cap]) {
+                    return Err(("halfword|fixed|slices".into(), format!("Fixed N={} first={}: slices of {} + {} elements", cap, first, a.len(), b.len())));
+                }
+                fx.set_first(first + cap + 3);
+                if *fx.get(0) != if (first + 3) % cap == first { 4_000_000_000 } else { content[(first + 3) % cap] } {
+                    return Err(("halfword|fixed|set_first".into(), format!("Fixed N={}: set_first({}) then get(0) = {}", cap, first + cap + 3, fx.get(0))));
+                }
+                evals += idx.len() as u64 * 3 + 4;
+            }
+            // ---- Bounded
+            for &start in firsts.iter().filter(|f| **f < cap).take(5) {
+                for len in [cap, cap / 2 + 1, 3] {
+                    let mut rb = Bounded::from_raw_parts(start, len, content.clone());
+                    let at = |i: usize| content[((start as u64 + i as u64) % cap as u64) as usize];
+                    for i in [0usize, 1, len - 1, len - 2, len / 2, (cap - start).min(len - 1), (cap - start).wrapping_sub(1).min(len - 1), ((1usize << 16) - start % (1 << 16)).min(len - 1)] {
+                        if rb.get(i).copied() != Some(at(i)) || rb[i] != at(i) {
+                            return Err(("halfword|bounded|get".into(), format!("Bounded cap={} start={} len={}: get({}) = {:?}, expected {}", cap, start, len, i, rb.get(i), at(i))));
+                        }
+                    }
+                    if rb.get(len).is_some() || rb.len() != len || rb.is_full() != (len == cap) {
+                        return Err(("halfword|bounded|len".into(), format!("Bounded cap={} start={} len={}: len() {}, is_full {}, get(len) {:?}", cap, start, len, rb.len(), rb.is_full(), rb.get(len))));
+                    }
+                    let (a, b) = rb.slices();
+                    if a.len() + b.len() != len || a[0] != at(0) || b.last().or(a.last()).copied() != Some(at(len - 1)) {
+                        return Err(("halfword|bounded|slices".into(), format!("Bounded cap={} start={} len={}: slices {} + {}", cap, start, len, a.len(), b.len())));
+                    }
+                    let evicted = rb.push(4_000_000_001);
+                    let want = if len == cap { Some(at(0)) } else { None };
+                    if evicted != want || rb.get(rb.len() - 1).copied() != Some(4_000_000_001) {
+                        return Err(("halfword|bounded|push".into(), format!("Bounded cap={} start={} len={}: push returned {:?}, expected {:?}; newest {:?}", cap, start, len, evicted, want, rb.get(rb.len() - 1))));
+                    }
+                    let first_now = if len == cap { at(1) } else { at(0) };
+                    if rb.pop() != Some(first_now) {
+                        return Err(("halfword|bounded|pop".into(), format!("Bounded cap={} start={} len={}: pop after push is not the oldest", cap, start, len)));
+                    }
+                    evals += 16;
+                }
+            }
+            Ok(())
+        }));
+        rep.eval(evals);
+        match res {
+            Ok(Ok(())) => rep.hit("half_word_capacity_probes"),
+            Ok(Err((sig, d))) => rep.violation(&sig, d, case),
+            Err(m) => rep.violation("halfword|panic", format!("capacity {}: panicked: {}", cap, m), case),
+        }
+    }
+}
+
 // ------------------------------------------------------------------ copies
 /// clone() / clone_from() of a ring buffer mid-history
 fn clone_conformance(rep: &mut Report, seed: u64) {
@@ -1435,6 +1530,9 @@ fn main() {
                 check_constructors(&mut rep);
             }
             random_histories(cli.seed, 100 + cli.shard, cli.get_u64("hist", 40), 6, 30, 1, &MIRI_STORES, &mut rep);
+            if usize::BITS < 64 {
+                half_word_probes(&mut rep, cli.seed, cli.shard, cli.nshards);
+            }
         }
         "asan" => {
             enumerate_steps(1..=4, &["vec", "boxed", "mutslice"], (0, 1), &mut rep);
